@@ -189,4 +189,8 @@ theorem entriesOf_spec (nc : Nat) (hnc : 0 < nc) : ∀ (n fuel : Nat) (l : List 
       · exact ⟨by rw [List.length_take]; omega, fun x hx => List.mem_of_mem_take hx⟩
       · exact ⟨(i3 e he).1, fun x hx => List.mem_of_mem_drop ((i3 e he).2 x hx)⟩
 
+/-- an entry of a normal attribute's portable data: a canonical point of the grid -/
+def OctaEntry (t : OctaT) (e : List Int) : Prop :=
+  ∃ a b, e = [a, b] ∧ Octa.inGrid t (a, b) ∧ Octa.canonical t (a, b)
+
 end Draco
